@@ -727,6 +727,17 @@ def _forced(e):
     return _check_sliced(c, z3.Not(e)) == "unsat"
 
 
+def strip_zext(t):
+    """the narrow term under zero-extension (z3.simplify writes ZeroExt(k, x) as Concat(0, x))"""
+    while True:
+        if z3.is_app_of(t, z3.Z3_OP_ZERO_EXT):
+            t = t.arg(0)
+        elif z3.is_app_of(t, z3.Z3_OP_CONCAT) and t.num_args() == 2 and z3.is_bv_value(t.arg(0)) and t.arg(0).as_long() == 0:
+            t = t.arg(1)
+        else:
+            return t
+
+
 def origin_of(term):
     o = _ORIGIN.get(term.get_id()) if z3.is_expr(term) else None
     return o[1] if o is not None else None
@@ -748,15 +759,15 @@ def elem_in(x, values):
     else:
         org, e = origin_of(x), x
     tv = None
-    if org is not None:
-        tv = set(org[0].values)
-    else:
-        t = e
-        while z3.is_app_of(t, z3.Z3_OP_ZERO_EXT):
-            t = t.arg(0)
+    if org is None:
+        t = strip_zext(e)
+        if t is not e and origin_of(t) is not None:
+            org = origin_of(t)
         o = DIGIT_ORIGIN.get(t.get_id())
         if o is not None and o[3].eq(t):
             tv = set(range(48, 58))       # a digit character of a rendered number
+    if org is not None:
+        tv = set(org[0].values)
     if tv is not None:
         vs = set(values)
         if tv <= vs:
